@@ -129,6 +129,81 @@ def chain_case(n, self_loop=False):
             "with_ctx": False, "root": ["O", 0], "mode": "extract"}
 
 
+def gen_dense(rng: random.Random, nf=7, no=4):
+    """Densely connected rank-ordered tables rooted at object 0: nested sequences (so that frames
+    sit at several depths), frames whose hooks prune / replace / insert items that are themselves
+    frames with editing hooks or objects that unwrap to such frames.  next_inner only in final
+    position (a non-final next_inner duplicates an entry of arbitrary rank and may not terminate)."""
+    def pick(lo):
+        fr = [["F", i] for i in range(lo + 1, nf)]
+        ob = [["O", i] for i in range(lo + 1, no)]
+        if ob and (not fr or rng.random() < 0.35):
+            return rng.choice(ob)
+        return rng.choice(fr) if fr else None
+
+    unwrap, elab = {}, {}
+    for o in range(no):
+        k = rng.random()
+        if o == 0 or k < 0.55:
+            items = [None if rng.random() < 0.07 else pick(o) for _ in range(rng.randrange(2, 5))]
+            unwrap[str(o)] = ["seq", items, rng.choice(["tuple", "list"])]
+        elif k < 0.65:
+            unwrap[str(o)] = ["one", pick(o)]
+        elif k < 0.78:
+            unwrap[str(o)] = ["iter", [pick(o) for _ in range(rng.randrange(1, 4))], rng.random() < 0.5]
+        elif k < 0.86:
+            unwrap[str(o)] = ["none"]
+        elif k < 0.93:
+            unwrap[str(o)] = ["seq", [], "tuple"]
+        else:
+            unwrap[str(o)] = ["raise"]
+    for f in range(nf):
+        k = rng.random()
+        ph = rng.random() < 0.5
+        its = [["I", x] for x in (pick(f) for _ in range(rng.randrange(1, 3))) if x]
+        if k < 0.35 or (not its and k >= 0.48 and k < 0.95):
+            elab[str(f)] = ["none", None, ph]
+        elif k < 0.48:
+            elab[str(f)] = ["seq", [], ph]
+        elif k < 0.68:
+            elab[str(f)] = ["seq", its, ph]
+        elif k < 0.90:
+            elab[str(f)] = ["seq", its + [["N"]], ph]
+        elif k < 0.95:
+            elab[str(f)] = ["one", its[0], ph]
+        elif k < 0.98:
+            elab[str(f)] = ["one", ["N"], ph]
+        else:
+            elab[str(f)] = ["raise", None, ph]
+    return {"nf": nf, "no": no, "frames": {str(f): ["plain"] for f in range(nf)}, "unwrap": unwrap,
+            "elab": elab, "attr": {}, "ctxs": {}, "fill": {}, "faults": [], "with_ctx": False,
+            "root": ["O", 0], "mode": "extract"}
+
+
+def chain_mid_case(n1, n2, mid, end):
+    """O0 -> ... -> O(n1-1) -> (mid, O(n1)) ; O(n1) -> ... -> O(n1+n2-1) -> end.
+    mid/end: "frame" | "leaf".  Exercises where the progress counter is reset."""
+    no = n1 + n2 + 2
+    unwrap = {str(o): ["one", ["O", o + 1]] for o in range(n1 + n2 - 1)}
+    m = ["F", 0] if mid == "frame" else ["O", no - 2]
+    e = ["F", 1] if end == "frame" else ["O", no - 1]
+    unwrap[str(n1 - 1)] = ["seq", [m, ["O", n1]], "tuple"]
+    unwrap[str(n1 + n2 - 1)] = ["one", e]
+    unwrap[str(no - 2)] = ["none"]
+    unwrap[str(no - 1)] = ["none"]
+    return {"nf": 2, "no": no, "frames": {"0": ["plain"], "1": ["plain"]}, "unwrap": unwrap,
+            "elab": {"0": ["none", None, False], "1": ["none", None, False]}, "attr": {}, "ctxs": {}, "fill": {},
+            "faults": [], "with_ctx": False, "root": ["O", 0], "mode": "extract"}
+
+
+def empties_case(n):
+    """O0 -> [O1] * n, O1 -> (): hook calls that produce nothing do not count as progress."""
+    return {"nf": 1, "no": 2, "frames": {"0": ["plain"]},
+            "unwrap": {"0": ["seq", [["O", 1]] * n, "list"], "1": ["seq", [], "tuple"]},
+            "elab": {}, "attr": {}, "ctxs": {}, "fill": {}, "faults": [], "with_ctx": False,
+            "root": ["O", 0], "mode": "extract"}
+
+
 # ----------------------------------------------------------------- running the implementation
 def run_impl(case):
     import stackscope
@@ -161,8 +236,12 @@ def run_impl(case):
             classes[o] = None
         else:
             wref = case["attr"].get(str(o), {}).get("wref", True)
+            # all synthetic objects compare equal: `items[-1] is next_inner` must be an identity test
             body = {"__repr__": (lambda self, o=o: f"<O{o}>"), "__iter__": (lambda self: self),
-                    "__next__": (lambda self: 1)}
+                    "__next__": (lambda self: 1), "_synthetic": True,
+                    "__eq__": (lambda self, other: getattr(other, "_synthetic", False)),
+                    "__ne__": (lambda self, other: not getattr(other, "_synthetic", False)),
+                    "__hash__": (lambda self: 7)}
             if not wref:
                 body["__slots__"] = ()
             classes[o] = type(f"Obj{o}", (), body)
